@@ -26,73 +26,263 @@ HEADER = (
 )
 
 
-def render(prog, indent="    ") -> str:
-    out = [HEADER]
+COMMENTS = ["# note", "#", "# i0 = 99", "#i1 = i0 + 1", "# else:", "# if i0 > 1:", "# while True:", "#end", "# it's off",
+            '# say "hi', "# mon.write(777)", "# break", "# continue", "# pass", "#    indented text", "# for k9 in range(3):",
+            "# elif i0 < 0:", "# return 0", "# def f9(a):", "# sleep(999)", "## TODO: x += 1", "#!shebang-like", "# 100% # twice"]
 
-    def block(stmts, lvl):
-        pad = indent * lvl
+
+class Noise:
+    """Meaning-preserving layout noise for `render` (CPython ignores all of it: Language Reference 2.1.3 comments, 2.1.7
+    blank lines, 2.1.8 indentation, 2.1.9 whitespace between tokens): comment-only lines at EVERY column - 0, the column of the
+    enclosing block header, anything between 0 and the current indentation, the current indentation, deeper -, blank and
+    blanks-only lines, before any statement (also the first of a block, also elif / else headers) and after the last statement
+    of a block; trailing comments / trailing blanks on statements and on headers (if / elif / else / while / for / def / the
+    main loop).  With wide=True additionally: every block chooses its own indentation width (1, 2, 3, 4, 8 blanks - or the
+    whole script indents with one tab per level), optional blanks around `=` / augmented operators / commas, inside call
+    parentheses, before the colon of a header and between the words of a header, CRLF line ends, no newline at the end of
+    the file, non-ASCII text in comments.  Never produced (the listed C07 layout findings): tabs mixed with blanks in
+    indentation, a blank between a callee / `range` and its parenthesis or around the dot of a method call, `if(` / `while(`
+    without the blank, two statements on one line, continuation lines.  `stats` counts what was placed; a comment-only line
+    no deeper than the enclosing header that is FOLLOWED by a statement of the same block is counted as
+    `dedented-comment-inside-block`."""
+
+    def __init__(self, rng, p_line=0.3, p_trail=0.18, p_blank=0.12, wide=False, p_space=0.25):
+        self.rng, self.p_line, self.p_trail, self.p_blank, self.wide = rng, p_line, p_trail, p_blank, wide
+        self.stats = {}
+        self.tabs = wide and rng.random() < 0.12           # the whole script indents with tabs only
+        self.crlf = wide and rng.random() < 0.15
+        self.no_final_newline = wide and rng.random() < 0.2
+        self.p_space = p_space if wide else 0.0
+        if self.tabs:
+            self._n("script:tab-indented")
+        if self.crlf:
+            self._n("script:crlf")
+
+    def _n(self, k):
+        self.stats[k] = self.stats.get(k, 0) + 1
+
+    # ---- indentation
+    def step(self, indent):
+        """the extra indentation of one block"""
+        if not self.wide:
+            return indent
+        if self.tabs:
+            return "\t"
+        w = self.rng.choice([1, 2, 2, 3, 4, 4, 4, 8])
+        self._n(f"block-indent:{w}")
+        return " " * w
+
+    # ---- optional blanks between tokens
+    def gap(self, normal, what):
+        """the white space at an optional-blank position whose usual spelling is `normal` ("" or " ")"""
+        if self.rng.random() >= self.p_space:
+            return normal
+        g = self.rng.choice(["", " ", "  ", "   "])
+        if g != normal:
+            self._n("spacing:" + what)
+        return g
+
+    def gap1(self, what):
+        """a position where at least one blank is required (after if / elif / while / for / in / def / return / global)"""
+        if self.rng.random() >= self.p_space:
+            return " "
+        self._n("spacing:" + what)
+        return self.rng.choice(["  ", "   "])
+
+    # ---- junk lines
+    def junk(self, lvl, unit, inside, follows):
+        """junk lines in front of a line of nesting level lvl with `unit` blanks per level"""
+        return self.junk_cols(lvl * unit, max(0, lvl * unit - unit), inside and lvl > 0, follows)
+
+    def junk_cols(self, cur, hdr, inside, follows):
+        """junk lines in front of a line indented to column cur (inside: the position is inside a block whose header is at
+        column hdr; follows: a statement of that block comes after the junk)"""
+        r, out = self.rng, []
+        while r.random() < self.p_line:
+            k = r.random()
+            if k < 0.30:
+                col = 0
+            elif k < 0.50:
+                col = hdr                                 # the column of the enclosing header
+            elif k < 0.65:
+                col = r.randrange(0, cur + 1)             # any column up to the current indentation
+            elif k < 0.85:
+                col = cur
+            else:
+                col = cur + r.choice([1, 2, 4, 8])
+            out.append(" " * col + r.choice(COMMENTS + (COMMENTS_WIDE if self.wide else [])) + "\n")
+            rel = ("deeper" if col > cur else "at-indent" if col == cur else "at-header-column" if col == hdr
+                   else "left-of-header" if col < hdr else "between-header-and-indent")
+            self._n("comment-line:" + rel)
+            if inside and col <= hdr and follows:
+                self._n("dedented-comment-inside-block")
+        while r.random() < self.p_blank:
+            out.insert(r.randrange(len(out) + 1), " " * r.choice([0, 0, 0, 1, 4, cur, cur + 3]) + "\n")
+            self._n("blank-line")
+        return out
+
+    def trail(self, header):
+        r = self.rng
+        if r.random() >= self.p_trail:
+            return ""
+        if r.random() < 0.2:
+            self._n("trailing-blanks")
+            return " " * r.choice([1, 2, 5])
+        self._n("trailing-comment:" + ("header" if header else "statement"))
+        return r.choice(["  ", " ", "   ", ""]) + r.choice(COMMENTS + (COMMENTS_WIDE if self.wide else []))
+
+    def file_level(self, header, body):
+        if self.no_final_newline and body.endswith("\n") and not body.endswith("\n\n"):
+            body = body[:-1]
+            self._n("script:no-final-newline")
+        if self.crlf:
+            body = body.replace("\n", "\r\n")
+        return header + body
+
+
+COMMENTS_WIDE = ["# caf\u00e9 \u2713", "# \u00fcber \u4e2d\u6587", "#\u00a0nbsp", "# tab\there"]
+
+
+def same_python(a, b):
+    """True iff CPython parses the two sources into the same syntax tree (layout, comments and blank lines aside)"""
+    import ast
+    try:
+        return ast.dump(ast.parse(a)) == ast.dump(ast.parse(b))
+    except SyntaxError:
+        return False
+
+
+def noisy_text(src, noise, unit=4):
+    """layout noise (see Noise) for a script given as TEXT in which every physical line is one logical line and the
+    indentation is `unit` blanks per level; returned unchanged when that cannot be established, and whenever CPython
+    would not read the noisy text as the very same program (ast equality)"""
+    lines = src.split("\n")
+    if any(q in src for q in ('"""', "'''")) or any(l.rstrip().endswith(("\\", ",", "(", "[", "{")) for l in lines):
+        return src
+    out, prev_lvl = [], 0
+    for l in lines:
+        if not l.strip() or l.lstrip().startswith("#"):
+            out.append(l)
+            continue
+        ind = len(l) - len(l.lstrip(" "))
+        if ind % unit or l[:ind].strip(" "):
+            return src
+        lvl = ind // unit
+        out.extend(j[:-1] for j in noise.junk(lvl, unit, lvl > 0 and lvl <= prev_lvl, True))
+        out.append(l.rstrip() + noise.trail(l.rstrip().endswith(":")))
+        prev_lvl = lvl
+    res = "\n".join(out)
+    return res if same_python(res, src) else src
+
+
+def render(prog, indent="    ", noise=None) -> str:
+    """noise=None: the plain layout (one statement per line, 4 blanks per level, nothing else).
+    noise=Noise(rng): the same statement tree with meaning-preserving layout noise (see Noise)."""
+    out = []
+    nz = noise
+
+    def g(normal, what):                 # optional blanks
+        return normal if nz is None else nz.gap(normal, what)
+
+    def g1(what):                        # at least one blank
+        return " " if nz is None else nz.gap1(what)
+
+    def eq(op="="):
+        return g(" ", "assign") + op + g(" ", "assign")
+
+    def commas(items, what="comma"):
+        res = ""
+        for i, it in enumerate(items):
+            if i:
+                res += g("", what) + "," + g(" ", what)
+            res += it
+        return res
+
+    def call(fn, args):
+        return f"{fn}(" + g("", "paren") + commas(args, "arg-comma") + g("", "paren") + ")"
+
+    def colon():
+        return g("", "colon") + ":"
+
+    def put(pad, hdr, text, header=False, inside=False):
+        if nz is not None:
+            out.extend(nz.junk_cols(len(pad), hdr, inside, True))
+            text += nz.trail(header)
+        out.append(pad + text + "\n")
+
+    def block(stmts, pad, hdr, inside=True):
+        """stmts at indentation pad; hdr = column of the enclosing header; inside: this is the body of a block"""
         if not stmts:
-            out.append(pad + "pass\n")
+            put(pad, hdr, "pass", inside=inside)
+
+        def sub(body):
+            block(body, pad + (indent if nz is None else nz.step(indent)), len(pad))
         for s in stmts:
             k = s[0]
             if k == "assign":
-                out.append(f"{pad}{s[1]} = {s[2]}\n")
+                put(pad, hdr, f"{s[1]}{eq()}{s[2]}", inside=inside)
             elif k == "aug":
-                out.append(f"{pad}{s[1]} {s[2]}= {s[3]}\n")
+                put(pad, hdr, f"{s[1]}{eq(s[2] + '=')}{s[3]}", inside=inside)
             elif k == "swap":
-                out.append(f"{pad}{s[1]}, {s[2]} = {s[2]}, {s[1]}\n")
+                put(pad, hdr, f"{commas([s[1], s[2]])}{eq()}{commas([s[2], s[1]])}", inside=inside)
             elif k == "tuple":
-                out.append(f"{pad}{', '.join(s[1])} = {', '.join(s[2])}\n")
+                put(pad, hdr, f"{commas(s[1])}{eq()}{commas(s[2])}", inside=inside)
             elif k == "write":
-                out.append(f"{pad}mon.write({s[1]})\n")
+                put(pad, hdr, call("mon.write", [s[1]]), inside=inside)
             elif k == "sleep":
-                out.append(f"{pad}sleep({s[1]})\n")
+                put(pad, hdr, call("sleep", [s[1]]), inside=inside)
             elif k == "dw":
-                out.append(f"{pad}digital_write({s[1]}, {s[2]})\n")
+                put(pad, hdr, call("digital_write", [s[1], s[2]]), inside=inside)
             elif k == "aw":
-                out.append(f"{pad}analog_write({s[1]}, {s[2]})\n")
+                put(pad, hdr, call("analog_write", [s[1], s[2]]), inside=inside)
             elif k == "read":
                 fn = "analog_read" if s[2] == "analog" else "digital_read"
-                out.append(f"{pad}{s[1]} = {fn}({s[3]})\n")
+                put(pad, hdr, f"{s[1]}{eq()}{call(fn, [s[3]])}", inside=inside)
             elif k == "if":
                 for i, (c, b) in enumerate(s[1]):
-                    out.append(f"{pad}{'if' if i == 0 else 'elif'} {c}:\n")
-                    block(b, lvl + 1)
+                    put(pad, hdr, f"{'if' if i == 0 else 'elif'}{g1('keyword')}{c}{colon()}", header=True, inside=inside)
+                    sub(b)
                 if s[2]:
-                    out.append(f"{pad}else:\n")
-                    block(s[2], lvl + 1)
+                    put(pad, hdr, f"else{colon()}", header=True, inside=inside)
+                    sub(s[2])
             elif k == "while":
-                out.append(f"{pad}while {s[1]}:\n")
-                block(s[2], lvl + 1)
+                put(pad, hdr, f"while{g1('keyword')}{s[1]}{colon()}", header=True, inside=inside)
+                sub(s[2])
             elif k == "for":
-                out.append(f"{pad}for {s[1]} in range({s[2]}):\n")
-                block(s[3], lvl + 1)
+                put(pad, hdr, f"for{g1('keyword')}{s[1]}{g1('keyword')}in{g1('keyword')}{call('range', [s[2]])}{colon()}", header=True, inside=inside)
+                sub(s[3])
             elif k in ("break", "continue", "pass"):
-                out.append(f"{pad}{k}\n")
+                put(pad, hdr, k, inside=inside)
             elif k == "call":
-                out.append(f"{pad}{s[1]}({', '.join(s[2])})\n")
+                put(pad, hdr, call(s[1], s[2]), inside=inside)
             elif k == "callassign":
-                out.append(f"{pad}{s[1]} = {s[2]}({', '.join(s[3])})\n")
+                put(pad, hdr, f"{s[1]}{eq()}{call(s[2], s[3])}", inside=inside)
             elif k == "return":          # inside helper bodies (harness/c01_helpers.py); None = bare `return`
-                out.append(f"{pad}return\n" if s[1] is None else f"{pad}return {s[1]}\n")
+                put(pad, hdr, "return" if s[1] is None else f"return{g1('keyword')}{s[1]}", inside=inside)
             elif k == "global":
-                out.append(f"{pad}global {', '.join(s[1])}\n")
+                put(pad, hdr, f"global{g1('keyword')}{commas(s[1])}", inside=inside)
             else:
                 raise ValueError(k)
+        if nz is not None and inside:
+            out.extend(nz.junk_cols(len(pad), hdr, True, False))       # junk after the last statement of a block
 
     if prog.get("head"):                 # statements above the function definitions (globals a helper updates)
-        block(prog["head"], 0)
+        block(prog["head"], "", 0, inside=False)
     for name, params, body, ret in prog.get("funcs", []):
-        out.append(f"def {name}({', '.join(params)}):\n")
-        block(body, 1)
+        put("", 0, f"def{g1('keyword')}{call(name, params)}{colon()}", header=True)
+        stm = list(body) if body else [("pass",)]
         if ret is not None:
-            out.append(f"{indent}return {ret}\n")
+            stm.append(("return", ret))      # the final `return` belongs to the body: junk in front of it sits inside the def block
+        block(stm, indent if nz is None else nz.step(indent), 0)
         out.append("\n")
-    block(prog["pre"], 0) if prog["pre"] else None
+    block(prog["pre"], "", 0, inside=False) if prog["pre"] else None
     if prog.get("main") is not None:
-        out.append("while True:\n")
-        block(prog["main"], 1)
-    return "".join(out)
+        put("", 0, f"while{g1('keyword')}True{colon()}", header=True)
+        block(prog["main"], indent if nz is None else nz.step(indent), 0)
+    if nz is not None:
+        out.extend(nz.junk_cols(0, 0, False, False))
+        return nz.file_level(HEADER, "".join(out))
+    return HEADER + "".join(out)
 
 
 class Gen:
@@ -100,7 +290,8 @@ class Gen:
     'div' (// % on signed operands), 'truediv_int', 'pow', 'continue' (in for / while loops - whose counter then
     advances at the head of the body - and in the body of the main loop, directly and under nested ifs), 'retype', 'branch_first'
     (first assignment inside a branch/loop), 'loop_first' (first assignment inside while True),
-    'funcs', 'float', 'str', 'tuple', 'chain_read' are opt-in."""
+    'funcs', 'float', 'str', 'tuple', 'chain_read', 'pass' (do-nothing if arms in chains with a later arm, `pass` between
+    statements) are opt-in."""
 
     def __init__(self, rng, features=()):
         self.rng = rng
@@ -115,6 +306,7 @@ class Gen:
         self.in_main = False    # generating the body of `while True:` (a `continue` there ends the pass)
         self.n_continue = {"for": 0, "while": 0, "main": 0}
         self.loop_kinds = []    # stack of the enclosing for/while loops
+        self.n_pass = {}        # `pass` statements generated (as the only statement of an if arm / between statements)
 
     # ---- expressions
     def int_atom(self, allow_vars=True):
@@ -292,6 +484,14 @@ class Gen:
             els = self.block(depth - 1, in_loop, False) if r.random() < 0.5 else []
             if "branch_first" not in self.f:
                 self.ints = list(saved)
+                # a do-nothing arm (`pass` only) in a chain with a later arm: dropping it, or its condition, changes which arm runs
+                if "pass" in self.f and (nb > 1 or els) and r.random() < 0.3:
+                    j = r.randrange(nb + (1 if els else 0))
+                    if j < nb:
+                        branches[j] = (branches[j][0], [("pass",)])
+                    else:
+                        els = [("pass",)]
+                    self.n_pass["arm"] = self.n_pass.get("arm", 0) + 1
             return ("if", branches, els)
         if k < 0.87 and depth > 0:
             v = f"k{len(self.loopvars)}"
@@ -353,6 +553,9 @@ class Gen:
                 out.extend(s[1])
             else:
                 out.append(s)
+        if "pass" in self.f and self.rng.random() < 0.1:             # a `pass` between / around the statements of a block
+            out.insert(self.rng.randrange(len(out) + 1), ("pass",))
+            self.n_pass["between"] = self.n_pass.get("between", 0) + 1
         return out
 
     def program(self, with_main=True):
